@@ -158,6 +158,14 @@ def make_plan(seed: int, tier: str, index: int) -> dict[str, Any]:
         gen.add_far_events(g, doc)
     if index % 40 == 17:
         gen.add_many_notes(g, doc, g.choice([520, 700]))
+    st = rng.stream(seed, "stampede")
+    st_on = st.random() < 0.35
+    st_kind = st.choice(["ts_far", "ts_far", "ts_far", "nps", "prop", "render", "hash", "iterate",
+                         "derived", "derived", "derived"])
+    if st_on and st_kind == "derived" and doc["tracks"]:
+        # the first track is long, so that the first computation of its derived attributes is
+        # (several readers arrive while one of them is still inside it)
+        gen.add_many_notes(g, doc, st.choice([60, 150, 300]))
     text = gen.render(doc)
     if doc["tracks"] and g.random() < 0.3:
         # unusual but accepted input: records of one instrument section out of tick order (the
@@ -185,12 +193,11 @@ def make_plan(seed: int, tier: str, index: int) -> dict[str, Any]:
     for _ in range(n_clients):
         clients.append([_gen_op(p, doc, present, ticks, kinds)
                         for _ in range(p.randint(3, 25 if n_clients < 3 else 12))])
-    st = rng.stream(seed, "stampede")
-    if n_clients > 1 and st.random() < 0.35:
+    if n_clients > 1 and st_on:
         # "stampede": every reader STARTS with the same read (often a far tick-to-time query, a
         # rate query over ticks, a derived attribute, a rendering) - the first use of lazily built
         # state by several threads at once, the classic check-then-act window
-        k = st.choice(["ts_far", "ts_far", "ts_far", "nps", "prop", "render", "hash", "iterate"])
+        k = st_kind if (st_kind != "derived" or present) else "ts_far"
         if k == "ts_far":
             far = ticks[-1] + st.choice([0, 1, 1000, 100000])
             common = [{"op": st.choice(["ts_at", "ts_at_no"]), "tick": far, "hint": None}
@@ -198,6 +205,15 @@ def make_plan(seed: int, tier: str, index: int) -> dict[str, Any]:
             for c_ in common:
                 if c_["op"] == "ts_at_no":
                     c_.pop("hint")
+        elif k == "derived":
+            # a lazily computed attribute of ONE object, read for the first time by everybody
+            tk = st.choice(["track", "track", "track", "note", "sp"])
+            tgt: list[Any] = [tk, present[0] if st.random() < 0.7 else st.choice(present)] + (
+                [st.randrange(16)] if tk != "track" else [])
+            common = [{"op": "prop", "target": tgt, "name": st.choice(DERIVED[tk])}]
+            while n_clients < 3 or (n_clients < 4 and st.random() < 0.3):
+                clients.append([])  # lost wake-ups need three readers
+                n_clients += 1
         else:
             common = [_gen_op(st, doc, present, ticks, [k])]
         follow = [{"op": "ts_at", "tick": t_, "hint": None} for t_ in (ticks[-1], ticks[len(ticks) // 2])]
@@ -236,7 +252,7 @@ def make_plan(seed: int, tier: str, index: int) -> dict[str, Any]:
         plan["pickle_consumer"] = 1 + st.randrange(2**31 - 2)
     if plan_stampede:
         plan["stampede"] = plan_stampede
-        if st.random() < 0.6:
+        if plan_stampede == "derived" or st.random() < 0.6:
             plan["cold"] = True
     f = rng.stream(seed, "fault")
     if present and g.random() < 0.3:
@@ -594,7 +610,11 @@ def execute(plan: dict[str, Any]) -> dict[str, Any]:
                     # (3) sequential model: same op on a fresh parse made now
                     if res is None:
                         pass
-                    elif op["op"] != "compare" and not state["halt"]:
+                    elif op["op"] != "compare" and not state["halt"] and not cold:
+                        # (not in cold runs: there the harness does not touch the library between
+                        # the readers' operations at all - a model parse is activity too, and e.g.
+                        # its notifications on a module-level condition would rescue a reader that
+                        # lost its wake-up; oracle (5) judges the results)
                         fresh = world.parse_text(tgt_text, None if on_other else plan.get("select"))
                         try:
                             exp: Any = ["ok", do_op(fresh, fresh, op)]
@@ -754,7 +774,7 @@ def execute(plan: dict[str, Any]) -> dict[str, Any]:
         "digest": sched.events.hexdigest()[:32],
         "evals": 1,
         "nontrivial": [rng.digest(plan)] if nontrivial else [],
-        "probes": probes,
+        "probes": {**probes, **sched.probes},
         "interleaving": sched.interleaving.hexdigest()[:32],
         "loc_pairs": sorted(sched.loc_pairs)[:50],
         "sim_steps": sched.global_step,
